@@ -226,6 +226,37 @@ def tablesAgree (pair : String → String → String → Bool) (S : Schema) (W :
 def wfLevel (S : Schema) (fs : Fields) : Prop :=
   ∀ f v, fs.get? f = some v → ∃ row ∈ S, row.1 = f ∧ hasKind (FKind.parse row.2.1) v = true ∧ isSet v = true
 
+/-! ### the code's own JSON tables -/
+
+/-- struct, its JSON writer entry and its JSON reader entry -/
+def jsonEntries : List (String × String × String) := [
+  ("Object", "Object.MarshalJSON", "Object.UnmarshalJSON"),
+  ("Actor", "Actor.MarshalJSON", "Actor.UnmarshalJSON"),
+  ("Activity", "Activity.MarshalJSON", "Activity.UnmarshalJSON"),
+  ("IntransitiveActivity", "IntransitiveActivity.MarshalJSON", "IntransitiveActivity.UnmarshalJSON"),
+  ("Question", "Question.MarshalJSON", "Question.UnmarshalJSON"),
+  ("Collection", "Collection.MarshalJSON", "Collection.UnmarshalJSON"),
+  ("OrderedCollection", "OrderedCollection.MarshalJSON", "OrderedCollection.UnmarshalJSON"),
+  ("CollectionPage", "CollectionPage.MarshalJSON", "CollectionPage.UnmarshalJSON"),
+  ("OrderedCollectionPage", "OrderedCollectionPage.MarshalJSON", "OrderedCollectionPage.UnmarshalJSON"),
+  ("Place", "Place.MarshalJSON", "Place.UnmarshalJSON"),
+  ("Profile", "Profile.MarshalJSON", "Profile.UnmarshalJSON"),
+  ("Relationship", "Relationship.MarshalJSON", "Relationship.UnmarshalJSON"),
+  ("Tombstone", "Tombstone.MarshalJSON", "Tombstone.UnmarshalJSON"),
+  ("Link", "Link.MarshalJSON", "Link.UnmarshalJSON"),
+  ("Source", "Source.MarshalJSON", "Source.UnmarshalJSON"),
+  ("PublicKey", "PublicKey.MarshalJSON", "PublicKey.UnmarshalJSON"),
+  ("Endpoints", "Endpoints.MarshalJSON", "JSONGetActorEndpoints")]
+
+def schemaOf (name : String) : Schema :=
+  ((schema.find? (fun s => s.1 == name)).map (·.2)).getD []
+
+def jsonW (name : String) : List WRow :=
+  ((jsonEntries.find? (fun e => e.1 == name)).map (fun e => wRows jsonWrite e.2.1)).getD []
+def jsonR (name : String) : List RRow :=
+  ((jsonEntries.find? (fun e => e.1 == name)).map (fun e => rRowsJ jsonRead e.2.2)).getD []
+
+
 /-! ### the documented normal forms (whole trees) -/
 
 def dash : Str := [45]
@@ -250,10 +281,13 @@ def normX (e : Bool) : Item → Item
   | .typedNil _ => .nil
   | .collNil _ => .nil
   | .irisNil => .nil
-  | .iri s => .iri s
-  | .iris l => collapse (l.map .iri)
+  | .iri s => if s.isEmpty then .nil else .iri s          -- the empty IRI writes nothing
+  | .iris l => collapse ((l.filter (fun s => !s.isEmpty)).map .iri)
   | .coll _ l => collapse (normXItems e l)
-  | .node k _ fs => .node k true (normXFields e fs)
+  | .node k _ fs =>
+    match normXFields e fs with
+    | .nil => .nil                                         -- an object with nothing to say is not written
+    | fs' => .node k true fs'
 def normXItems (e : Bool) : Items → List Item
   | .nil => []
   | .cons i r => let n := normX e i; if isNilItem n then normXItems e r else n :: normXItems e r
@@ -290,12 +324,15 @@ def normG : Item → Item
   | .typedNil _ => .nil
   | .collNil _ => .nil
   | .irisNil => .nil
-  | .iri s => .iri s
+  | .iri s => if s.isEmpty then .nil else .iri s
   | .iris l => if l.isEmpty then .nil else .iris l
   | .coll _ l => match normGItems l with
     | [] => .nil
     | l' => .coll false (Items.ofList l')
-  | .node k _ fs => .node k true (normGFields fs)
+  | .node k _ fs =>
+    match normGFields fs with
+    | .nil => .nil
+    | fs' => .node k true fs'
 def normGItems : Items → List Item
   | .nil => []
   | .cons i r => let n := normG i; if isNilItem n then normGItems r else n :: normGItems r
